@@ -79,6 +79,10 @@ def run(tier):
             if ln.startswith("VIOL "):
                 _, hx, got, want = ln.split()
                 s = b"" if hx == "." else (None if hx == "NULL" else bytes.fromhex(hx))
+                if s == b"PREFERRED":
+                    acc.violation("%s/preferred-method" % PID, "crypt_preferred_method() is not the strongest enabled "
+                                  "default-capable prefix, or crypt_checksalt does not say OK for it (checksalt=%s)" % got, None)
+                    continue
                 cls = "null" if s is None else ("len%d" % len(s) if len(s) <= 4 else "long")
                 acc.violation("%s/checksalt-differs/%s" % (PID, cls),
                               "crypt_checksalt(%r) = %s, independent classifier says %s" % (s, got, want),
@@ -90,6 +94,49 @@ def run(tier):
     for k in ("ok", "legacy", "invalid"):
         acc.cls(("enumeration", k, tot.get(k, 0) > 0))
     run_.merge(acc)
+    # other build configurations (the property quantifies over them; C19 owns the rest): the enumeration
+    # of all strings of length <= 3 against the classifier restricted to the enabled methods
+    from . import C19
+    import shutil
+    cfgs = [("c18:bcrypt_a", ["bcrypt_a", "sha256crypt"]), ("c18:glibc", ["descrypt", "md5crypt", "sha256crypt", "sha512crypt"]),
+            ("c18:bigcrypt", ["bigcrypt", "gost_yescrypt"])]
+    if tier == "thorough":
+        rngc = rt.rng_for(run_.seed, PID, "cfg")
+        cfgs += [("c18:rnd%d" % i, sorted(rngc.sample(gen.METHODS, rngc.randint(1, 8)))) for i in range(6)]
+    acc2 = common.Acc()
+    for name, en2, vwexe, err, ipd in pool.pmap(C19.build_config, cfgs):
+        if vwexe is None:
+            acc2.inconc("configuration %s did not build (C19 judges that): %s" % (name, err[:100]))
+            continue
+        d = os.path.dirname(vwexe)
+        ve = os.path.join(d, "venum")
+        objs = " ".join(os.path.join(d, o) for o in os.listdir(d) if o.endswith(".o"))
+        from .. import build as _b
+        pc = subprocess.run("gcc -std=gnu11 -O1 -I%s %s %s -o %s" % (os.path.join(d, "gen"), os.path.join(_b.HARNESS, "venum.c"), objs, ve),
+                            shell=True, stdout=subprocess.PIPE, stderr=subprocess.STDOUT, text=True)
+        if pc.returncode == 0:
+            outs = pool.pmap(run_shard, [(ve, i, 8, "20000", run_.seed, en2) for i in range(8)])
+            for rc, out, err2 in outs:
+                for ln in out.splitlines():
+                    if ln.startswith("VIOL "):
+                        _, hx, got, want = ln.split()
+                        sv = b"" if hx == "." else (None if hx == "NULL" else bytes.fromhex(hx))
+                        if sv == b"PREFERRED":
+                            acc2.violation("%s/preferred-method/config" % PID,
+                                           "configuration %s: crypt_preferred_method() is not the strongest enabled default-capable "
+                                           "prefix, or crypt_checksalt does not say OK for it (checksalt=%s)" % (",".join(en2), got),
+                                           {"selection": en2})
+                            continue
+                        acc2.violation("%s/checksalt-differs/config" % PID,
+                                       "configuration %s: crypt_checksalt(%r) = %s, classifier for the enabled set says %s" % (
+                                           ",".join(en2), sv, got, want), {"selection": en2})
+                    elif ln.startswith("STAT "):
+                        acc2.count("evaluations", json.loads(ln[5:]).get("evaluations", 0))
+                        acc2.count("config_evaluations", json.loads(ln[5:]).get("evaluations", 0))
+            acc2.cls(("config", name))
+            acc2.count("configurations")
+        shutil.rmtree(d, ignore_errors=True)
+    run_.merge(acc2)
     n = 3000 if tier == "quick" else 40000
     for a in pool.pmap(do_crypt_side, [(run_.seed * 100 + i, n // 16, en) for i in range(16)]):
         run_.merge(a)
@@ -137,6 +184,8 @@ def run(tier):
         "verdict_counts": {k: tot.get(k, 0) for k in ("ok", "legacy", "invalid")},
         "crypt_successes_cross_checked": int(run_.acc.n.get("crypt_successes", 0)),
         "enabled_methods": en,
+        "other_configurations_enumerated": int(run_.acc.n.get("configurations", 0)),
+        "strings_checked_in_other_configurations": int(run_.acc.n.get("config_evaluations", 0)),
         "samples": ["$y$", "ab", "$2x$", "_", "$zz"],
         "flavours": ["opt (-O2) for the enumeration", "asan for the crypt side"],
     }
